@@ -28,11 +28,18 @@ for _u in list(UNITS.get("C09", [])):
         UNITS.setdefault("C01", []).append(dict(_u, prop="C01", name="partition." + _u["name"][len("get_units."):]))
 
 
+def _base_model(h):
+    """a model object built by the real __init__ chain (the base class methods are exercised through a concrete estimator)"""
+    import contracts.C03 as C03
+
+    return C03.model(h, C03.NP)
+
+
 def _agg_unit(aggname, keys):
     @unit("C01", f"aggregate_votes.{aggname}", fns=[f"{BASE}._get_reporting_aggregate_votes"])
     def votes(h):
         t = Three(h, "turnout")
-        self = h.obj(BASE)
+        self = _base_model(h)
         kind, res = h.call_method(self, "_get_reporting_aggregate_votes", t.rep, t.third, list(keys), "turnout")
         if kind == "raise":
             return h.fail("no_raise", f"raised {res}")
@@ -60,7 +67,7 @@ def _agg_unit(aggname, keys):
         # the columns add_unit_predictions writes on the other two frames
         t.rep.cols["pred_turnout"] = t.rep.cols["results_turnout"]
         t.third.cols["pred_turnout"] = t.third.cols["results_turnout"]
-        self = h.obj(BASE)
+        self = _base_model(h)
         kind, res = h.call_method(self, "get_aggregate_predictions", t.rep, t.nonrep, t.third, list(keys), "turnout")
         if kind == "raise":
             return h.fail("no_raise", f"raised {res}")
